@@ -15,7 +15,7 @@ EXTENDS Naturals
 \* TryFrom<&[u8]> / TryFrom<&[u8; N]>, store_into_bytes / store_into_str_bytes,
 \* accessors, quartile, clear_checksum, compare_with_config and the part
 \* distances, max_distance, FuzzyHashLengthEncoding::new / try_from / range.
-CoreEvents == {"gen_new", "gen_update", "gen_update_p", "gen_clone", "gen_fin", "parse", "parse_sweep", "frombytes", "store",
+CoreEvents == {"gen_new", "gen_update", "gen_update_p", "hash_buf", "gen_clone", "gen_fin", "parse", "parse_sweep", "frombytes", "store",
                "fmt", "fmt_sweep", "cmp", "eq", "dcall", "dist_matrix", "len_run", "len_code"}
 Unconstrained == {"stream_end", "file", "file_data", "file_err", "example", "ser", "de", "de_doc", "cmpstr"}
 
